@@ -525,7 +525,7 @@ func genCache(r *core.Rand, maxOps int) (string, bool) {
 	var ops []string
 	op := func() string { return fmt.Sprintf("%d.%d", 1+r.Intn(nOps), r.Intn(2)) }
 	scripts := []string{"51", "51", "52", "-", "6a", "0151", "4c", "6a01ff"}
-	best := 1
+	best := 0
 	for i := 0; i < n; i++ {
 		switch x := r.Intn(100); {
 		case x < 35:
@@ -546,23 +546,28 @@ func genCache(r *core.Rand, maxOps int) (string, bool) {
 
 func (P) Generate(g *core.Gen) {
 	r := g.R
-	for i, n := 0, g.N(150, 1500); i < n; i++ {
+	for i, n := 0, g.N(150, 600); i < n; i++ {
 		line, class, nt := genChain(r.Fork(), 0, 12, false)
 		g.Case(class, nt, line)
 	}
-	for i, n := 0, g.N(500, 6000); i < n; i++ {
+	for i, n := 0, g.N(500, 2500); i < n; i++ {
 		line, class, nt := genChain(r.Fork(), 1, 22, i%50 == 0)
 		g.Case(class, nt, line)
 	}
-	for i, n := 0, g.N(300, 4000); i < n; i++ {
+	for i, n := 0, g.N(300, 2000); i < n; i++ {
 		line, class, nt := genChain(r.Fork(), 2, 22, false)
 		g.Case(class, nt, line)
 	}
-	for i, n := 0, g.N(400, 5000); i < n; i++ {
+	for i, n := 0, g.N(400, 2500); i < n; i++ {
 		line, class, nt := genChain(r.Fork(), 3, 26, false)
 		g.Case(class, nt, line)
 	}
-	for i, n := 0, g.N(2000, 30000); i < n; i++ {
+	// longer histories (thorough only): deeper trees, more flush/re-creation interleavings
+	for i, n := 0, g.N(0, 400); i < n; i++ {
+		line, class, nt := genChain(r.Fork(), 1+i%3, 60, false)
+		g.Case(class+"-long", nt, line)
+	}
+	for i, n := 0, g.N(2000, 12000); i < n; i++ {
 		line, nt := genCache(r.Fork(), 24)
 		g.Case("cache", nt, line)
 	}
